@@ -70,6 +70,7 @@ class Job:
     replay: str = "playback"  # "playback" | "none"
     min_covers: int = 0
     all_covers: bool = True  # every cover point must be SATISFIED (else: at least min_covers)
+    expect_gb: int = 0  # memory this query is expected to need (0: a quarter of its cap); used for admission
 
 
 @dataclass
@@ -256,7 +257,42 @@ def classify(text: str, rc: int, res: Result, timed_out: bool):
     res.status = "error"
 
 
+import threading
+
+_MEM_BUDGET_GB = int(os.environ.get("VERIF_MEM_GB", "52"))
+_mem_lock = threading.Condition()
+_mem_used = 0
+
+
+def _admit(job: Job) -> int:
+    """Memory-aware admission: the sum of expected memory of running solver processes stays
+    under the budget (62 GB machine, no swap)."""
+    global _mem_used
+    need = job.expect_gb or max(2, job.mem_gb // 4)
+    need = min(need, _MEM_BUDGET_GB)
+    with _mem_lock:
+        while _mem_used + need > _MEM_BUDGET_GB:
+            _mem_lock.wait()
+        _mem_used += need
+    return need
+
+
+def _release(need: int):
+    global _mem_used
+    with _mem_lock:
+        _mem_used -= need
+        _mem_lock.notify_all()
+
+
 def run_job(prop: str, crate_dir: Path, job: Job, idx: int) -> Result:
+    need = _admit(job)
+    try:
+        return _run_job(prop, crate_dir, job, idx)
+    finally:
+        _release(need)
+
+
+def _run_job(prop: str, crate_dir: Path, job: Job, idx: int) -> Result:
     res = Result(job=job, status="error")
     safe = re.sub(r"[^A-Za-z0-9_]+", "_", job.name)
     jdir = workdir(prop) / "jobs" / f"{idx:03d}_{safe}"
